@@ -23,7 +23,7 @@ def sh(cmd, **kw):
     return subprocess.run(cmd, shell=isinstance(cmd, str), stdout=subprocess.PIPE, stderr=subprocess.STDOUT, **kw)
 
 
-def run_one(change, props, tier="quick", keep=False, base=None):
+def run_one(change, props, tier="quick", keep=False, base=None, force_base=False):
     name = re.sub(r"[^A-Za-z0-9]+", "-", change)[-40:]
     wt = "/tmp/seedtest-%s-%d" % (name, os.getpid())
     tgt = wt + "-target"
@@ -35,7 +35,7 @@ def run_one(change, props, tier="quick", keep=False, base=None):
     sh("git -C %s worktree remove --force %s" % (REPO, wt))
     # prefer the current HEAD (the patch is then judged against today's code, with every later repair in);
     # fall back to the commit the patch was written against when it no longer applies
-    if base and not change.startswith("revert:"):
+    if base and not change.startswith("revert:") and not force_base:
         path0 = change if os.path.isabs(change) else os.path.join(V, change)
         if sh("git -C %s apply --check %s" % (REPO, path0)).returncode == 0:
             base = None
@@ -44,7 +44,7 @@ def run_one(change, props, tier="quick", keep=False, base=None):
         print("worktree failed:", r.stdout.decode()[-300:])
         return []
     if base:
-        print("   (patch no longer applies to HEAD: judged against its base %s)" % base)
+        print("   (judged against %s: %s)" % (base, "masked at HEAD by a later repair" if force_base else "the patch no longer applies to HEAD"))
     out = []
     try:
         if change.startswith("revert:"):
@@ -91,6 +91,9 @@ def run_one(change, props, tier="quick", keep=False, base=None):
 
 
 SHARED = False
+# repairs whose spot is guarded a second time by a LATER repair: reverting them alone no longer breaks the property at
+# HEAD, so the revert is judged on the tree just before the later repair
+MASKED_REVERTS = {"7d5fae3": "50aefdc"}
 
 
 def drop_target(tgt):
@@ -118,14 +121,18 @@ def main():
         for line in j["fixed"]:
             m = re.match(r"fixed: property=(C\d+) ([0-9a-f]{7,}) ", line)
             if m:
-                results += run_one("revert:" + m.group(2), [m.group(1)], tier, keep)
+                mk = MASKED_REVERTS.get(m.group(2))
+                results += run_one("revert:" + m.group(2), [m.group(1)], tier, keep, (mk + "~1") if mk else None, force_base=bool(mk))
     elif a and a[0] == "--all-seeded":
         sd = os.path.join(V, "seeded")
         for d in sorted(os.listdir(sd)):
             mp = os.path.join(sd, d, "meta.json")
             if os.path.exists(mp):
                 m = json.load(open(mp))
-                results += run_one(os.path.join("seeded", d, "patch.diff"), m.get("checks", [m["property"]]), tier, keep, m.get("base"))
+                # "masked_at_head": a later repair guards the same spot a second time, the change alone no longer
+                # breaks the property at HEAD - it is judged against the commit it was written for
+                results += run_one(os.path.join("seeded", d, "patch.diff"), m.get("checks", [m["property"]]), tier, keep, m.get("base"),
+                                   force_base=bool(m.get("masked_at_head")))
     elif a and a[0] == "--all-benign":
         # behaviour-preserving changes: NO check may raise an alarm
         allp = ["C%02d" % k for k in range(1, 21) if k not in (16, 17)]
@@ -138,7 +145,9 @@ def main():
         print("benign changes: %d false alarm(s) / harness errors" % fa)
         return 1 if fa else 0
     elif len(a) >= 2:
-        results += run_one(a[0], a[1:], tier, keep)
+        mp = os.path.join(V, os.path.dirname(a[0]), "meta.json")
+        m = json.load(open(mp)) if os.path.exists(mp) else {}
+        results += run_one(a[0], a[1:], tier, keep, m.get("base"), force_base=bool(m.get("masked_at_head")))
     else:
         print(__doc__)
         return 2
